@@ -73,6 +73,9 @@ EVERY_CONSTRUCT = (
     + ["a$", "^a", "^a|b", "(a)", "(a|b)", "(a|b)*abb", "(ab)+", "(a*)*", "(a?)+", "(a|)", "a||b", "()", "a|", "|a",
        "ab?c", "a*", "a?", "(a*b*)*", "a*b", "(a?b?)c", "a{0}", "a{0}b", "(ab){0,2}c", "(a|b){2}", "(a{1,2}){2}", "a{2,}b{0,1}",
        "a.b", "[^a]b", ".*", ".+x", "\\x00", "\\x00a", "[\\x00-a]", "[^b]", "\\Sx", "\\W\\d"]
+    # inside a bracket group an escaped character next to "-": the documented range endpoints are plain characters and \x escapes,
+    # so these are three single items, not a range
+    + ["[\\+-9]", "[\\\\-a]", "[a-\\]]", "[\\.-\\+]", "[!-\\+]", "[\\(-\\)]", "[^\\+-9]", "[\\$-a]x", "[0\\--9]"]
 )
 PROBLEM = ["[b-a]", "a{2,1}", "[z-a]x", "(a{3,2})", "[a-c-e]", "a{,2}", "a{}", "a{1", "a**", "(", ")", "(a", "a)", "[", "[]", "[a", "\\", "\\q",
            "\\x4", "\\xZZ", "\\p{Foo}", "\\p{L", "[:digit", "a|b|", "ab)", "a\\/b", "a\nb", "a\tb", "é", "aé", "[é]", "", "+", "?a", "{1}",
